@@ -199,6 +199,13 @@ func (o c13Op) apiName() string {
 
 var c13DateAPI = map[string]string{"BIRT": "AddBirthDate", "BAPM": "AddBaptismDate", "DEAT": "AddDeathDate", "BURI": "AddBurialDate"}
 
+func c13Culprit() string {
+	if c13QueryCulprit == "" {
+		return ""
+	}
+	return " [query: " + c13QueryCulprit + "]"
+}
+
 func c13IsRead(kind string) bool {
 	switch kind {
 	case "nwt", "inds", "fams", "bp", "if", "sp", "pa", "ch", "hu", "wi", "fc", "dump", "warn", "foreign", "inert", "str", "gs":
@@ -483,17 +490,56 @@ func (w *c13MemWriter) WriteFile(f *core.File) error {
 	return err
 }
 
-var c13Queries = []string{
-	".Individuals | .Name | .String",
-	".Families | Length",
-	".Individuals | { name: .Name | .String, born: .Birth | .String }",
-	".Individuals | .Spouses | Length",
-	".Nodes | Length",
-}
+var c13Queries = func() []string {
+	qs := []string{
+		".Individuals | .Name | .String",
+		".Families | Length",
+		".Individuals | { name: .Name | .String, born: .Birth | .String }",
+		".Individuals | .Spouses | Length",
+		".Nodes | Length",
+	}
+	// Slice-aliasing shapes: First(k) re-slices and keeps the capacity, and several accessors hand
+	// out slices the document or a node owns (.Nodes = Document.nodes / the children of a node,
+	// .Families = the remembered family list, an individual's .Families / .Spouses).  A function that
+	// appends onto such a prefix writes into the owner's array.  X ranges over every list accessor
+	// of the document and, nested, of its records.
+	lists := []string{".Nodes", ".Individuals", ".Families", ".Sources"}
+	for _, outer := range []string{".Nodes", ".Individuals", ".Families"} {
+		for _, inner := range []string{".Nodes", ".Names", ".Families", ".Spouses", ".Parents", ".Children", ".Births", ".AllEvents"} {
+			lists = append(lists, outer+" | "+inner)
+			if inner == ".Nodes" || inner == ".Families" || inner == ".Spouses" {
+				lists = append(lists, outer+" | First(1) | "+inner, outer+" | Last(1) | "+inner)
+			}
+		}
+	}
+	for _, x := range lists {
+		for _, k := range []string{"0", "1", "2"} {
+			qs = append(qs,
+				"Combine("+x+" | First("+k+"), "+x+" | Last(1))",
+				"Combine("+x+" | First("+k+"), "+x+")",
+				"Combine("+x+" | First(3) | First("+k+"), "+x+" | Last(2), "+x+" | First(1))",
+				"Combine("+x+" | First("+k+"), Combine("+x+" | Last(1), "+x+" | First(1)))",
+				"Combine("+x+" | Last(2) | First(1), "+x+" | First(2))")
+		}
+		qs = append(qs,
+			"Combine("+x+" | Only(.Pointer = \"I1\") | First(1), "+x+" | Last(1))",
+			"Combine("+x+" | First(1), "+x+" | Only(.Pointer != \"\"))",
+			x+" | First(1) | Length", x+" | Last(1) | Length")
+	}
+	qs = append(qs,
+		"Combine(.Nodes | First(1), .Individuals)", // mixed element types: an error, must still be pure
+		"Combine(.Families | First(1), .Families | Last(1)) | .Husband",
+		"Xs are .Nodes | First(1); Combine(Xs, .Nodes | Last(1))")
+	return qs
+}()
 
 // c13SideEffect is set by a read that changed a document *other* than the one under test (the second
 // operand of a diff); the caller reports it.
 var c13SideEffect string
+
+// c13QueryCulprit names the first query of a Query read after which the records or the family list
+// of the live document were no longer what they were (for the failure report).
+var c13QueryCulprit string
 
 // c13Variants derives two documents with the same records from a GEDCOM text: "bare" (every level-1
 // node stripped of its children) and "detailed" (every childless level-1 node given children), so
@@ -625,9 +671,19 @@ func (d *c13Doc) blackBox(sub string) {
 			}
 		}
 	case "Query":
+		state := func() string { return c13Digest(doc) + c13View(doc, "fams", nil, "") }
+		before := state()
 		for _, src := range c13Queries {
-			if e, err := q.NewParser().ParseString(src); err == nil {
-				_, _ = e.Evaluate([]*gedcom.Document{doc})
+			func() {
+				defer func() { recover() }() // a query that fails is C15's subject; purity is judged by the caller
+				if e, err := q.NewParser().ParseString(src); err == nil {
+					_, _ = e.Evaluate([]*gedcom.Document{doc})
+				}
+			}()
+			if c13QueryCulprit == "" {
+				if now := state(); now != before {
+					c13QueryCulprit = src // the caller's before/after comparison reports the change itself
+				}
 			}
 		}
 	case "Decode": // decoding any other document resets the process-global node cache
@@ -978,6 +1034,7 @@ func (r *c13Runner) do(o c13Op) {
 		// String() itself is a read; its effect on caches is none
 	}
 	c13SideEffect = ""
+	c13QueryCulprit = ""
 	obs := r.emit(o)
 	r.steps = append(r.steps, c13Step{Op: o.String(), Obs: obs})
 	if c13SideEffect != "" {
@@ -1000,10 +1057,10 @@ func (r *c13Runner) do(o c13Op) {
 		text := r.d.doc.String()
 		if isRead {
 			if text != textBefore {
-				r.fail("", "a read changed the document text: "+o.apiName(), text, textBefore)
+				r.fail("", "a read changed the document text: "+o.apiName()+c13Culprit(), text, textBefore)
 			} else if after != before {
 				i, x, y := c13FirstDiff(after, before)
-				r.fail("", "a read changed a view: "+o.apiName(), r.label(i)+" = "+x, "before the read: "+y)
+				r.fail("", "a read changed a view: "+o.apiName()+c13Culprit(), r.label(i)+" = "+x, "before the read: "+y)
 			} else if u := c13UIDs(r.d.doc); u != uidsBefore {
 				r.fail("", "a read changed a view: "+o.apiName(), "UniqueIdentifiers() = "+u, "before the read: "+uidsBefore)
 			}
@@ -1698,6 +1755,7 @@ func c13ReadPurity(c *Ctx, text string) {
 				}
 			}()
 			c13SideEffect = ""
+			c13QueryCulprit = ""
 			d.blackBox(rd.Sub)
 		}()
 		if c13SideEffect != "" {
@@ -1708,9 +1766,9 @@ func c13ReadPurity(c *Ctx, text string) {
 		c.Count("read-purity=" + rd.Sub)
 		in := c13Failure{Document: text, History: []c13Step{{Op: "read:" + rd.Sub}}}
 		if doc.String() != textBefore {
-			c.Oracle("", "a read changed the document text: "+rd.Sub, in, doc.String(), textBefore)
+			c.Oracle("", "a read changed the document text: "+rd.Sub+c13Culprit(), in, doc.String(), textBefore)
 		} else if df := c13DumpDiff(after, before, labels); df != "" {
-			c.Oracle("", "a read changed a view: "+rd.Sub, in, df, "unchanged")
+			c.Oracle("", "a read changed a view: "+rd.Sub+c13Culprit(), in, df, "unchanged")
 		}
 	}
 	if fresh, err := gedcom.NewDocumentFromString(doc.String()); err == nil {
